@@ -109,7 +109,7 @@ class C19(Prop):
     ]
     rule = ("profiles over alternatives 1..m (m <= 5): Euclidean by construction (random generic positions), random "
             "strict profiles, single orders; storage order shuffled; oracle = z3 over all axes; non-trivial = >= 2 "
-            "orders and >= 3 alternatives")
+            "orders and >= 3 alternatives; 30 % of the cases carry multiplicities and 25 % are built in two stages on one object through the append_* entry points (vote_map / order_list / order / int64 and object order_array, part of a stored order's multiplicity held back) with a query in between")
     budget = {"quick": 100, "thorough": 3000}
     anchors = [("preflibtools.properties.subdomains.ordinal.euclidean", n) for n in
                ("is_one_euclidean", "_one_euclidean_solve_lp", "_one_euclidean_gen_sets", "_restrict_preferences")] + \
